@@ -133,6 +133,7 @@ func cmdCheck(args []string) int {
 	}
 	t0 := time.Now()
 	pinnedLocals = loadPinnedLocals(*verif)
+	pinnedRanges = loadPinnedRanges(*verif)
 	pats := scanContractPackages(*repo, *prop)
 	idx := loadRcIndex(*verif)
 	if len(pats) == 0 && len(idx.Props[*prop]) > 0 {
@@ -229,15 +230,21 @@ func cmdCheck(args []string) int {
 		os.WriteFile(f, data, 0o644)
 		fmt.Printf("shape: %d obligation IDs written to %s\n", len(ids), f)
 		locals := map[string][]LocalDecl{}
+		ranges := map[string]map[string]string{}
 		for _, j := range jobs {
 			if fn := w.funcs[j.key]; fn != nil {
 				if l := w.localsOf(fn); len(l) > 0 {
 					locals[w.funcKey(fn)] = l
 				}
+				if r := w.rangesOf(fn); len(r) > 0 {
+					ranges[w.funcKey(fn)] = r
+				}
 			}
 		}
 		data, _ = json.MarshalIndent(locals, "", " ")
 		os.WriteFile(filepath.Join(*verif, "baseline", *prop+".locals.json"), data, 0o644)
+		data, _ = json.MarshalIndent(ranges, "", " ")
+		os.WriteFile(filepath.Join(*verif, "baseline", *prop+".ranges.json"), data, 0o644)
 		return 0
 	}
 	var wg sync.WaitGroup
